@@ -752,6 +752,15 @@ func (w *World) spawnedWriteObligations(prop string) []*Obligation {
 					seen++
 					cf := clo.Fn.(*ssa.Function)
 					cnt := 0
+					// ... and appends to no slice held in an object it shares with its maker (append writes into the
+					// backing array whenever there is room: two goroutines appending to the same field write the same cell)
+					for _, sa := range w.sharedAppends(cf, 0, map[*ssa.Function]bool{}) {
+						cnt++
+						out = append(out, &Obligation{Name: fmt.Sprintf("%s/spawned-append#%d", CanonName(cf), cnt), Func: CanonName(cf), Kind: "spawned-write",
+							Tags: sr.Tags, Status: "failed", File: sr.File, Line: sr.Line, SrcPos: w.P.posStr(sa.Pos()),
+							Text:   "spawned_writes: a closure started in another goroutine appends to no slice of a shared object without a lock",
+							Detail: map[string]string{"why": shortName(CanonName(cf)) + " runs in its own goroutine and (itself or through " + shortName(CanonName(sa.Parent())) + ") appends to a slice that is a field of an object it did not make: append writes into the shared backing array when there is room"}})
+					}
 					for _, cb := range cf.Blocks {
 						locked := false
 						for _, ci := range cb.Instrs {
@@ -1059,5 +1068,62 @@ func (w *World) yieldProtocolObligations(prop string) []*Obligation {
 	}
 	out = append(out, &Obligation{Name: "yield-protocol/rule", Func: "yield-protocol", Kind: "yield-protocol", Tags: []string{prop}, Status: st,
 		Text: "iterators stop calling yield once it has returned false", Detail: map[string]string{"why": why}, Solver: "ssa-scan"})
+	return out
+}
+
+// sharedAppends: the append calls in fn (and in the contract-less repository helpers it calls, two levels deep) whose
+// slice operand is read from a field of an object that fn did not allocate (reached through a parameter, a captured
+// variable or a receiver), outside any locked region.
+func (w *World) sharedAppends(fn *ssa.Function, depth int, seen map[*ssa.Function]bool) []ssa.Instruction {
+	var out []ssa.Instruction
+	if fn == nil || seen[fn] || len(fn.Blocks) == 0 {
+		return nil
+	}
+	seen[fn] = true
+	var foreign func(v ssa.Value, d int) bool
+	foreign = func(v ssa.Value, d int) bool {
+		if d > 6 {
+			return false
+		}
+		switch x := v.(type) {
+		case *ssa.Parameter, *ssa.FreeVar:
+			return true
+		case *ssa.UnOp:
+			return foreign(x.X, d+1)
+		case *ssa.FieldAddr:
+			return foreign(x.X, d+1)
+		case *ssa.Field:
+			return foreign(x.X, d+1)
+		}
+		return false
+	}
+	for _, b := range fn.Blocks {
+		locked := lockDominates(fn, b)
+		for _, ins := range b.Instrs {
+			c, ok := ins.(*ssa.Call)
+			if !ok {
+				continue
+			}
+			if f := c.Call.StaticCallee(); f != nil && f.Name() == "Lock" {
+				locked = true
+			}
+			if locked {
+				continue
+			}
+			if bi, isB := c.Call.Value.(*ssa.Builtin); isB && bi.Name() == "append" && len(c.Call.Args) > 0 {
+				if ld, isLoad := c.Call.Args[0].(*ssa.UnOp); isLoad {
+					if fa, isField := ld.X.(*ssa.FieldAddr); isField && foreign(fa.X, 0) {
+						out = append(out, ins)
+					}
+				}
+				continue
+			}
+			callee := c.Call.StaticCallee()
+			if callee == nil || depth >= 2 || !w.P.InRepo(FuncPkgPath(callee)) || w.C.Funcs[CanonName(callee)] != nil {
+				continue
+			}
+			out = append(out, w.sharedAppends(callee, depth+1, seen)...)
+		}
+	}
 	return out
 }
